@@ -406,7 +406,7 @@ func lexSpaces(c *explore.Ctx, conformance, positions bool, delta int) {
 	// of the text lines, text lines at several indents, tabs
 	{
 		lineAlpha := []string{"", " ", "  ", "    ", "a", " a", "  a", "    a", "\ta", "  \t"}
-		nl := c.Pick(4, 5)
+		nl := c.Pick(5, 6)
 		sub := c.Sub("block-lines", fmt.Sprintf("every block string of ≤ %d lines over %d line shapes (blank lines of 0–4 spaces, text at indents 0, 1, 2, 4, tab-indented text, blanks with a tab), joined by LF and by CRLF, followed by a name", nl, len(lineAlpha)), oracle, "the grammar yields at least one token")
 		if sub != nil {
 			t0 := time.Now()
